@@ -213,6 +213,10 @@ def body(rep, case, sub="dense"):
             raise Violation(f"C16/unexpected-{type(res).__name__}/{tag}", case, "a successful response", f"{type(res).__name__}: {res}")
         if getattr(res, "successful", None) is not True:
             raise Violation(f"C16/not-successful/{tag}", case, True, repr(res)[:160])
+    if exp_outcome == "RuntimeError" and len(frames) < len(exp_frames):
+        # nothing actionable: the statement only says the call raises - it may refuse before asking the device anything.
+        # What was written must still be the beginning of the model's list (login, state query) and never a command.
+        exp_frames = exp_frames[:len(frames)]
     if len(frames) != len(exp_frames):
         kinds = [wire.classify(f) if len(f) >= 44 else "short" for f in frames]
         raise Violation(f"C16/frame-list/{tag}/given={'+'.join(given) or 'nothing'}", case,
